@@ -49,10 +49,13 @@ Matrix(p, w) ==
             <<Zero, Zero, Zero, Zero, g, Zero, Zero, Zero, Zero>>, <<Zero, Zero, h, Zero, pkr, Zero, Zero, Zero, Zero>>,
             <<Zero, Zero, Zero, Zero, Zero, Zero, Zero, g, Zero>>, <<Zero, Zero, Zero, Zero, Zero, h, Zero, pks, Zero>>,
             <<Zero, Zero, Zero, Zero, Zero, Zero, Zero, Zero, g>>, <<Zero, Zero, Zero, Zero, Zero, Zero, h, Zero, pks>> >>
+    \* signed values equal committed values, with every message slot of the PS key in use: witness (rho', mu_1, mu_2, R_1, R_2); the pairing equation
+    \* e(a^, g~)^rho' * e(a^, Y~_1)^mu_1 * e(a^, Y~_2)^mu_2 in the target group (generators E(1), E(2), E(3)) and one commitment mu_i g + R_i h per value
+    [] p = "com_eq_sig" -> << <<E(1), E(2), E(3), Zero, Zero>>, <<Zero, E(4), Zero, E(5), Zero>>, <<Zero, Zero, E(4), Zero, E(5)>> >>
     [] p = "and_dlog_com_eq" -> << <<E(1), Zero, Zero>>, <<Zero, E(2), E(3)>>, <<Zero, E(4), Zero>> >>       \* AND composition: block diagonal, one challenge
     [] p = "replicate_dlog" -> << <<E(1), Zero>>, <<Zero, E(2)>> >>                                         \* replicated composition
 WitnessDim(p) == CASE p = "dlog" -> 1 [] p = "aggregate_dlog" -> 3 [] p = "dlog_eq" -> 1 [] p = "com_eq" -> 2 [] p = "com_eq_different_groups" -> 3
-                   [] p = "com_enc_eq" -> 3 [] p = "com_lin" -> 5 [] p = "com_mult" -> 5 [] p = "vcom_eq" -> 4 [] p = "and_dlog_com_eq" -> 3 [] p = "replicate_dlog" -> 2 [] p = "enc_trans" -> 9
+                   [] p = "com_enc_eq" -> 3 [] p = "com_lin" -> 5 [] p = "com_mult" -> 5 [] p = "vcom_eq" -> 4 [] p = "and_dlog_com_eq" -> 3 [] p = "replicate_dlog" -> 2 [] p = "enc_trans" -> 9 [] p = "com_eq_sig" -> 5
 (* names of the public inputs and of the response components, for the implementation rows *)
 Publics(p) == CASE p = "dlog" -> <<"public", "coeff">> [] p = "aggregate_dlog" -> <<"public", "coeff_0", "coeff_2">> [] p = "dlog_eq" -> <<"public_1", "public_2", "coeff_1">>
                 [] p = "com_eq" -> <<"commitment", "y", "cmm_key_g", "cmm_key_h", "g">> [] p = "com_eq_different_groups" -> <<"commitment_1", "commitment_2", "cmm_key_1", "cmm_key_2">>
@@ -61,6 +64,7 @@ Publics(p) == CASE p = "dlog" -> <<"public", "coeff">> [] p = "aggregate_dlog" -
                 [] p = "vcom_eq" -> <<"comm", "comms_0", "gis_0", "h", "g_bar", "h_bar">>
                 [] p = "and_dlog_com_eq" -> <<"first_public", "second_y", "second_commitment">> [] p = "replicate_dlog" -> <<"public_0", "public_last", "swap">>
                 [] p = "enc_trans" -> <<"dlog_public", "elg_dec_public", "encexp1_0_commitment", "encexp2_1_y">>
+                [] p = "com_eq_sig" -> <<"blinded_sig_0", "blinded_sig_1", "commitments_0", "commitments_last", "ps_pub_key_y_tilda_last", "ps_pub_key_x_tilda", "comm_key_h">>
 
 VARIABLES w, r, c
 svars == <<w, r, c>>
@@ -92,8 +96,9 @@ SpecialSound == \A c2 \in Fld \ {c} :
 WClasses == {[j \in 1..N |-> "rand"]} \cup {[j \in 1..N |-> IF j = k THEN cl ELSE "rand"] : k \in 1..N, cl \in {"0", "1", "r-1"}} \cup {[j \in 1..N |-> "0"]}
 (* "forge_skip_row": a transcript made for the statement without one of its rows (whose image is NOT the image of the witness - the full statement is false), hashed as the
    full statement, with the response padded to the expected size.  Extract recomputes one commitment per row of M, so such a transcript can only be accepted by a verifier
-   that leaves a row out; protocols whose statement carries an index set (vcom_eq) or a list of sub-statements (the replicated composition) are exposed to this. *)
-Targets == {"none", "context", "challenge", "challenge_msb", "response_surplus"} \cup (IF Proto \in {"vcom_eq", "replicate_dlog"} THEN {"forge_skip_row"} ELSE {}) \cup {Publics(Proto)[i] : i \in 1..Len(Publics(Proto))} \cup {"response_" \o ToString(j - 1) : j \in 1..N}
+   that leaves a row out; protocols whose statement carries an index set (vcom_eq) or lists of sub-statements (the replicated composition, the two chunk
+   lists of enc_trans - there also with the response counts shifted between the two lists so that only their sum matches) are exposed to this. *)
+Targets == {"none", "context", "challenge", "challenge_msb", "response_surplus"} \cup (IF Proto \in {"vcom_eq", "replicate_dlog", "enc_trans"} THEN {"forge_skip_row"} ELSE {}) \cup {Publics(Proto)[i] : i \in 1..Len(Publics(Proto))} \cup {"response_" \o ToString(j - 1) : j \in 1..N}
 Rows == {[kind |-> "sigma", protocol |-> Proto, wclass |-> wc, perturb |-> t] : wc \in WClasses, t \in Targets}
 ASSUME PrintT(<<"ROWS", ToJson(Rows)>>)
 =============================================================================
